@@ -208,34 +208,55 @@ pub fn spend_case(sender: &'static str, receiver: &'static str, channel: Option<
     }
 }
 
-/// UpdateConfig authorization and its effect on later swaps (old route refused, new route accepted).
-pub fn config_case(sender: &'static str) -> Case {
+/// UpdateConfig authorization and its effect on later swaps, for every shape of the message: trader and allow-list
+/// each absent / re-sent unchanged / changed. Afterwards exactly (configured trader, configured route) pairs can swap.
+pub fn config_case(sender: &'static str, trader_kind: u8, routes_kind: u8) -> Case {
     Case {
-        name: format!("tre:config:{sender}"),
+        name: format!("tre:config:{sender}:t{trader_kind}:r{routes_kind}"),
         run: Box::new(move |f: &Filter, _mw: bool| {
             let who = Who::new(false);
-            let mut deps = setup(&who, vec![vec![hop(1, A, B)]]);
+            let old_routes = vec![vec![hop(1, A, B)]];
+            let new_routes = vec![vec![hop(2, C, A)]];
+            let mut deps = setup(&who, old_routes.clone());
             let s = match sender {
                 "trader" => who.u1.clone(),
                 "admin" => who.admin.clone(),
                 _ => who.u2.clone(),
             };
+            let trader_arg = match trader_kind {
+                0 => None,
+                1 => Some(who.u1.clone()),
+                _ => Some(who.u3.clone()),
+            };
+            let routes_arg = match routes_kind {
+                0 => None,
+                1 => Some(old_routes.clone()),
+                _ => Some(new_routes.clone()),
+            };
             let before = crate::world::dump(&deps.storage);
-            let r = exec(&mut deps, &who, &s, ExecuteMsg::UpdateConfig { trader: Some(who.u3.clone()), allowed_swap_routes: Some(vec![vec![hop(2, C, A)]]) });
+            let r = exec(&mut deps, &who, &s, ExecuteMsg::UpdateConfig { trader: trader_arg.clone(), allowed_swap_routes: routes_arg.clone() });
             finish(f, &r);
             claim(f, "C13:treasury UpdateConfig only for the admin", matches!(r, Ok(Ok(_))) == (sender == "admin") || matches!(r, Err(_)));
-            if !matches!(r, Ok(Ok(_))) {
+            let applied = matches!(r, Ok(Ok(_)));
+            if !applied {
                 claim(f, "C13:refused UpdateConfig changes nothing", crate::world::dump(&deps.storage) == before);
-                return;
             }
+            let exp_trader = if applied { trader_arg.unwrap_or(who.u1.clone()) } else { who.u1.clone() };
+            let exp_routes = if applied { routes_arg.unwrap_or(old_routes.clone()) } else { old_routes.clone() };
+            let cfg = treasury::state::CONFIG.load(&deps.storage).expect("SYMX-HARNESS: treasury config");
+            claim(f, "C13:after UpdateConfig the stored trader and allow-list are exactly the supplied values (absent = unchanged)", cfg.trader.as_str() == exp_trader && cfg.allowed_swap_routes == exp_routes);
             let amt = Uint128::new(symcore::var("amt"));
             let lim = symcore::var("lim");
-            let old = exec(&mut deps, &who, &who.u1.clone(), ExecuteMsg::SwapExactAmountIn { routes: vec![hop(1, A, B)], token_in: Coin { denom: A.into(), amount: amt }, token_out_min_amount: lim });
-            claim(f, "C13:after a config update the former trader and the former route are refused", !matches!(old, Ok(Ok(_))));
-            let old2 = exec(&mut deps, &who, &who.u3.clone(), ExecuteMsg::SwapExactAmountIn { routes: vec![hop(1, A, B)], token_in: Coin { denom: A.into(), amount: amt }, token_out_min_amount: lim });
-            claim(f, "C13:after a config update the former route is refused for the new trader too", !matches!(old2, Ok(Ok(_))));
-            let new = exec(&mut deps, &who, &who.u3.clone(), ExecuteMsg::SwapExactAmountIn { routes: vec![hop(2, C, A)], token_in: Coin { denom: C.into(), amount: amt }, token_out_min_amount: lim });
-            claim(f, "C13:after a config update the new trader can use the new route", matches!(new, Ok(Ok(_))));
+            for trader in [who.u1.clone(), who.u3.clone(), who.admin.clone()] {
+                for route in [hop(1, A, B), hop(2, C, A)] {
+                    let got = exec(&mut deps, &who, &trader, ExecuteMsg::SwapExactAmountIn { routes: vec![route.clone()], token_in: Coin { denom: route.token_in_denom.clone(), amount: amt }, token_out_min_amount: lim });
+                    let expect = trader == exp_trader && exp_routes.iter().any(|x| *x == vec![route.clone()]);
+                    claim(f, "C13:after a config update exactly the configured trader swaps on exactly the configured routes", matches!(got, Ok(Ok(_))) == expect || matches!(got, Err(_)));
+                    if let Err(p) = &got {
+                        prove(f, &format!("C16:no panic [{}]", crate::step::panic_key(p)), "false".into());
+                    }
+                }
+            }
             let q = treasury::contract::query(deps.as_ref(), env(&who), treasury::msg::QueryMsg::Config {});
             claim(f, "C16:treasury query returns a result", q.is_ok());
         }),
@@ -362,7 +383,11 @@ pub fn cases(tier: &str) -> Vec<Case> {
             v.push(spend_case(s, r, None));
             v.push(spend_case(s, r, Some("channel-1")));
         }
-        v.push(config_case(s));
+        for tk in 0..3u8 {
+            for rk in 0..3u8 {
+                v.push(config_case(s, tk, rk));
+            }
+        }
     }
     v
 }
